@@ -830,7 +830,7 @@ fn shared_model_predict(c: &mut Case) {
 fn main() {
     runner::main(Spec {
         property: "C20",
-        rule: "a case is a random program of 1..8 matrix/vector operations (same generator as C03, shapes 1..8, nine value kinds incl. all-negative / all-positive / mixed sign, row and column vectors, results of transposes kept as non-standard-layout operands) executed step by step on DenseMatrix, ndarray::Array2 and nalgebra::DMatrix; every backend's result is compared with the row-major reference model after every step (and the backends with each other where the model leaves the value open); non-trivial = at least one step compared; distinct = hash of registers + program",
+        rule: "a case is a random program of 1..8 matrix/vector operations (same generator as C03, shapes 1..8, nine value kinds incl. all-negative / all-positive / mixed sign, row and column vectors, results of transposes kept as non-standard-layout operands) executed step by step on DenseMatrix, ndarray::Array2 and nalgebra::DMatrix; every backend's result is compared with the row-major reference model after every step (and the backends with each other where the model leaves the value open); non-trivial = at least one step compared; distinct = hash of registers + program; in half of the programs every ndarray matrix / vector register starts in a drawn owned memory layout (row offset or column cut by slicing in place, column-major, negative stride, stride 2) with the same logical content, likewise the inputs of half of the estimator and decomposition cases; scale_mut also gets exactly-zero divisors (value left open, NaN / infinity pattern must agree across backends); shared_model_predict: one k-means model fitted on the built-in matrix labels the same rows identically on all backends",
         assumptions: vec![
             "after every step each backend's result object is overwritten entry-wise (through `set`) with the dense backend's observed value, so all backends always see identical data while keeping their own memory layout",
             "tolerances as in C03 (8·k·eps·forward-error scale per entry; structural operations exact)",
